@@ -30,6 +30,7 @@ REPLAYS = os.path.join(ROOT, "replays")
 REPO = os.environ.get("VERIF_REPO", "/repo")
 
 sys.path.insert(0, os.path.join(ROOT, "lib"))
+sys.modules.setdefault("check", sys.modules[__name__])
 
 GOENV = dict(os.environ, GOFLAGS="-mod=mod", GOPROXY="off", GOSUMDB="off", GOTOOLCHAIN="local",
              CGO_ENABLED=os.environ.get("CGO_ENABLED", "0"))
